@@ -39,6 +39,24 @@ def attrOf (j : Json) : Except String AttrRef := do
       | _ => throw "reverse = [attr id, entity]"
   pure { id := id, entity := e, hidden := h, pk := pk, reverse := rev }
 
+/-- the raw answers of the registered getters, in registration order: `[{"applies": bool, "answer": "name" | [names] | null}]` -/
+def gettersOf (j : Json) : Except String (List (Bool × Answer)) := do
+  match j with
+  | .arr gs => gs.toList.mapM (fun gj => do
+      let applies ← gj.getObjValAs? Bool "applies"
+      let a ← match gj.getObjVal? "answer" with
+        | .ok (.str s) => pure (Answer.single s)
+        | .ok (.arr l) => do pure (Answer.many (← l.toList.mapM (fun x => fromJson? x)))
+        | _ => pure Answer.nothing
+      pure (applies, a))
+  | _ => throw "getters: array expected"
+
+/-- a list of names, or `{"getters": [...]}` -/
+def namesOrGetters (j : Json) : Except String (List String) := do
+  match optField j "getters" with
+  | some gs => do pure (foldGetters (← gettersOf gs))
+  | none => strList j
+
 structure World where
   sub : Nat → List Nat
   attrs : List AttrRef
@@ -101,16 +119,7 @@ def worldOf (j : Json) : Except String World := do
     -- either the normalised list of names, or (preferred) the raw answers of all registered getters, in registration order
     let g ← match optField u "getters" with
       | none => strList (← field u "groups")
-      | some (.arr gs) => do
-        let parsed ← gs.toList.mapM (fun gj => do
-          let applies ← gj.getObjValAs? Bool "applies"
-          let a ← match gj.getObjVal? "answer" with
-            | .ok (.str s) => pure (Answer.single s)
-            | .ok (.arr l) => do pure (Answer.many (← l.toList.mapM (fun x => fromJson? x)))
-            | _ => pure Answer.nothing
-          pure (applies, a))
-        pure (foldGetters parsed)
-      | some _ => throw "getters: array expected"
+      | some gs => do pure (foldGetters (← gettersOf gs))
     let o ← match optField u "obj" with
       | none => pure none
       | some v => do pure (some (← objOf v))
@@ -118,12 +127,12 @@ def worldOf (j : Json) : Except String World := do
   let rolesJ ← argArr j "roles"
   let roles ← rolesJ.mapM (fun x => do
     match x with
-    | .arr #[u, o, l] => pure (((← fromJson? u : Nat), (← objOf o)), (← strList l))
+    | .arr #[u, o, l] => pure (((← fromJson? u : Nat), (← objOf o)), (← namesOrGetters l))
     | _ => throw "roles = [[user, obj, [roles]]]")
   let labelsJ ← argArr j "labels"
   let labels ← labelsJ.mapM (fun x => do
     match x with
-    | .arr #[o, l] => pure ((← objOf o), (← strList l))
+    | .arr #[o, l] => pure ((← objOf o), (← namesOrGetters l))
     | _ => throw "labels = [[obj, [labels]]]")
   let env : Env := {
     rules := rules
